@@ -21,6 +21,7 @@ from vsim import seams, wire
 
 REPO = os.environ.get("VERIF_REPO", "/repo")
 _WARM = False
+RULES = []  # (unique_id, phase, subphase, disabled by default, fixable, severity) of every rule of the tree
 RUN_TIMEOUT = float(os.environ.get("VERIF_RUN_TIMEOUT", "120"))
 
 
@@ -41,7 +42,14 @@ def warm():
     import vsg.__main__  # noqa
     import vsg.rule_list
 
-    vsg.rule_list.load_rules()
+    global RULES
+    RULES = []
+    for r in vsg.rule_list.load_rules():
+        try:
+            RULES.append((r.unique_id, int(r.phase), int(r.subphase), bool(r.disable), bool(r.fixable), getattr(getattr(r, "severity", None), "name", None)))
+        except Exception:
+            pass
+    RULES.sort()
     import vsg
 
     where = os.path.dirname(os.path.abspath(vsg.__file__))
